@@ -295,7 +295,9 @@ def chain_frames(rng, e, start, nseg, mt=None, ver=None, sizes=None, trail=True)
         n = sizes[i] if sizes else rng.choice([0, 1, 2, 5, 16, 40, 77])
         tr = rng.bytes(rng.choice([1, 4, 9])) if (trail and rng.chance(1, 3)) else b''
         # later segments may carry different header fields: those of the first segment must win
-        m = msg(ts if i == 0 else rng.next(), ident if i == 0 else rng.next() & 0xFFFFFFFF, (fl if i == 0 else rng.below(256) & 0xB3) | seg, pt, rng.bytes(n), trail=tr)
+        # (timestamp, id, flags and also the payload-type byte - any non-zero value)
+        m = msg(ts if i == 0 else rng.next(), ident if i == 0 else rng.next() & 0xFFFFFFFF, (fl if i == 0 else rng.below(256) & 0xB3) | seg,
+                pt if (i == 0 or rng.chance(1, 2)) else rng.range(1, 255), rng.bytes(n), trail=tr)
         out.append(cmp_frame(ver, e[0], mt, e[1], (start + i) % 65536, [m]))
     return out
 
